@@ -500,14 +500,35 @@ func genC17ValueSpec(r *Rng) []float64 {
 
 var c17DurPool = []int64{0, 1, -1, 2, 10, 1000, 1e6, 1e9, -1e9, 5e9, 60e9, 3, 7, 25e6, 50e6, 75e6, 1 << 49, -(1 << 49), 999999999, 1000000001}
 
+// durations d for which time.Duration(d).Seconds() != float64(d)/1e9 (found by scanning whole milliseconds)
+var c17UlpDurs = func() []int64 {
+	var out []int64
+	for ms := int64(1000); ms < 60000 && len(out) < 64; ms++ {
+		d := time.Duration(ms * 1e6)
+		if d.Seconds() != float64(d)/float64(time.Second) {
+			out = append(out, int64(d))
+		}
+	}
+	if len(out) == 0 {
+		out = []int64{1140e6}
+	}
+	return out
+}()
+
 // strictly increasing durations whose conversion to seconds is strictly increasing too (|d| <= 2^50 ns)
 func genC17DurSpec(r *Rng) []time.Duration {
 	n := r.Range(1, 8)
 	set := map[int64]bool{}
 	for len(set) < n {
-		switch r.Intn(4) {
+		switch r.Intn(6) {
 		case 0:
 			set[c17DurPool[r.Intn(len(c17DurPool))]] = true
+		case 4:
+			// whole milliseconds above one second: float64(d)/1e9 is correctly rounded, other ways of computing
+			// seconds (Duration.Seconds adds two roundings) differ by one ulp for some of these
+			set[int64(r.Range(1000, 20000))*1e6] = true
+		case 5:
+			set[c17UlpDurs[r.Intn(len(c17UlpDurs))]] = true
 		case 1:
 			set[int64(r.Range(-5, 5))] = true
 		case 2:
